@@ -113,6 +113,29 @@ theorem waiters_exact (a b c : Bool) (evs : List Ev) :
     (awaitTerminated s = some .ok ↔ s.st = .terminated) :=
   latch_facts _ (inv_run a b c evs).1
 
+/-- The latches stay closed: a waiter that has been released reads the state *later* (Go: `awaitState` calls
+`State()` after waking), in some state `run s more`; whatever that state is, the call no longer blocks, and it
+returns nil iff the state it reads is (still) Running / Terminated. (So `AwaitRunning` can return an error although
+Running was reached, when the service has moved on before the waiter looked: the value is that of the read.) -/
+theorem released_waiter_stays_released (a b c : Bool) (evs more : List Ev) :
+    let s := run (init a b c) evs
+    (awaitRunning s ≠ none → awaitRunning (run s more) ≠ none) ∧
+    (awaitTerminated s ≠ none → awaitTerminated (run s more) ≠ none ∧ (run s more).st = s.st) :=
+  waiter_stays _ (inv_run a b c evs).1 more
+
+/-- Waiter contexts: a waiter whose own context is cancelled always returns (with the context's error, or with
+the latch's result if that is ready too — `select` may take either); with a live context the outcome is the
+single one of `waiters_exact`. -/
+theorem cancelled_waiter_returns (a b c : Bool) (evs : List Ev) :
+    let s := run (init a b c) evs
+    (WaitOut.blocked ∉ awaitRunningCtx s true ∧ WaitOut.ctxErr ∈ awaitRunningCtx s true) ∧
+    (WaitOut.blocked ∉ awaitTerminatedCtx s true ∧ WaitOut.ctxErr ∈ awaitTerminatedCtx s true) ∧
+    (awaitRunningCtx s false = [match awaitRunning s with | none => .blocked | some r => .res r]) ∧
+    (awaitTerminatedCtx s false = [match awaitTerminated s with | none => .blocked | some r => .res r]) := by
+  intro s
+  unfold awaitRunningCtx awaitTerminatedCtx
+  cases awaitRunning s <;> cases awaitTerminated s <;> simp
+
 /-- Once the state is past Running, Running is never reached (again): the release of the waiters is final. -/
 theorem running_unreachable (a b c : Bool) (evs more : List Ev)
     (h : 3 ≤ (run (init a b c) evs).st.rank) : (run (run (init a b c) evs) more).st ≠ .running :=
@@ -132,7 +155,7 @@ theorem failure_is_first_error (a b c : Bool) (evs : List Ev) :
 
 /-- Every listener that is still registered has received or has queued, in order and exactly once,
 every transition made since its registration; a removed listener has received a prefix of them.
-(One callback at a time: `deliver` is one atomic event per listener goroutine.) -/
+(`seen` = callbacks begun. That they never overlap: `one_callback_at_a_time`.) -/
 theorem listener_sees_all_in_order (a b c : Bool) (evs : List Ev) :
     let s := run (init a b c) evs
     ∀ l ∈ s.lsns, l.regAt ≤ s.trans.length ∧
@@ -141,6 +164,32 @@ theorem listener_sees_all_in_order (a b c : Bool) (evs : List Ev) :
   intro s l hl
   have hok := (inv_run a b c evs).1.lsn l hl
   exact ⟨hok.reg, fun h => (hok.live h).1, hok.gone⟩
+
+/-- **One callback at a time.** A callback is two events — the listener's goroutine takes the notification
+and enters the callback (`deliver`), the callback returns (`deliverEnd`) — with any other events of the
+service, and any events of other listeners, in between. For every listener and every interleaving at most
+one of its callbacks is executing, and it is executing exactly while the goroutine is `busy`; the next one
+begins only after the previous one has returned (`deliver` on a busy listener changes nothing). -/
+theorem one_callback_at_a_time (a b c : Bool) (evs : List Ev) :
+    let s := run (init a b c) evs
+    (∀ l ∈ s.lsns, l.inCb ≤ 1 ∧ (l.inCb = 1 ↔ l.busy = true)) ∧
+    ∀ id, (∀ l ∈ s.lsns, l.id = id → l.busy = true) → (step s (.deliver id)).lsns = s.lsns := by
+  intro s
+  have hc := (inv_run a b c evs).1
+  refine ⟨fun l hl => ?_, fun id hb => ?_⟩
+  · have := (hc.lsn l hl).cb
+    cases hbz : l.busy <;> simp [hbz] at this <;> simp [this]
+  · exact deliver_busy_noop s.lsns id hb
+
+/-- non-vacuity: two transitions are queued for a slow listener; the second callback cannot begin before the
+first has returned. -/
+example :
+    let s := run (init true true true) [.addListener, .startAsync, .tau, .startRet none, .tau, .tau, .deliver 0]
+    let s1 := step s (.deliver 0)
+    let s2 := step (step s (.deliverEnd 0)) (.deliver 0)
+    s.lsns.map (fun l => (l.seen, l.queue, l.inCb)) = [([.starting], [.running], 1)] ∧ s1.lsns = s.lsns ∧
+    s2.lsns.map (fun l => (l.seen, l.queue, l.inCb)) = [([.starting, .running], [], 1)] := by
+  decide
 
 /-- What a listener registered before the first transition (such as the manager's) is handed next is a
 legal edge out of the state its previous callbacks led to — the hypothesis `LegalFeed` of the manager
@@ -162,7 +211,10 @@ the manager has been handed; `LegalFeed` says each service's notifications arriv
 legal order, with ANY interleaving across services and with AddListener / remove / callbacks of the
 manager's listeners anywhere in between. -/
 
-/-- The manager is healthy exactly while all services are Running, stopped exactly when all are terminal. -/
+/-- AS NOTIFIED: the manager is healthy exactly while every service's last notification handed to the manager
+says Running, stopped exactly when they all say Terminated/Failed (`viewsAfter`). A service can already be
+Stopping while its notification is still queued and the manager still reports healthy; the statement about the
+services' REAL states is `system_healthy_iff_all_running_when_drained`. -/
 theorem healthy_iff_all_running (n : Nat) (hn : 0 < n) (evs : List MEv) (hl : LegalFeed (List.replicate n .new) evs) :
     ((Mgr.init n).run evs).state = .healthy ↔ ∀ x ∈ viewsAfter (List.replicate n .new) evs, x = .running :=
   (minv_run _ _ evs (minv_init n hn) hl).rest.stH
@@ -300,17 +352,49 @@ theorem late_listener_sees_exact_suffix (a b c : Bool) (evs more : List Ev)
       (l.removed = true → l.seen <+: s2.trans.drop s.trans.length) :=
   late_listener _ (inv_run a b c evs).1 hnt more
 
-/-! ### failure watcher -/
+/-! ### failure watcher
 
-/-- Every failure of a watched service that happens before `Close` is forwarded exactly once, in order,
-and nothing else is. -/
+Model: the channel is unbuffered (a forwarding callback blocks until a reader receives), `Close()` holds
+the watcher's mutex while waiting for the listener goroutines. Events: Watch*, a watched service's Failed
+callback starting, a reader receiving, Close. -/
+
+/-- Every failure whose callback started before `Close()` completed is either still blocked in its send or
+has been received — exactly once, in order, nothing else is ever received; and reading as many values as are
+blocked delivers all of them. -/
 theorem fw_each_failure_forwarded_once (evs : List FEv) :
-    ((({} : FW)).run evs).forwarded = failuresBeforeClose evs := by
-  simpa using fw_forwarded {} evs rfl
+    let w := ({} : FW).run evs
+    w.forwarded ++ w.blocked = w.entered ∧
+    (w.run (List.replicate w.blocked.length .recv)).forwarded = w.entered := by
+  intro w
+  have h := fwinv_run evs
+  exact ⟨h.acct, (drain_completes _ w h rfl).2.1⟩
 
-/-- `Close` is idempotent: the channel is closed exactly once however often `Close` is called. -/
+/-- `Close` is idempotent and safe: the channel is closed exactly once, only when no callback is blocked in
+a send on it (no send on a closed channel), and never while another `Close` is still waiting. -/
 theorem fw_close_idempotent (evs : List FEv) :
-    (({} : FW).run evs).chanCloses = if (({} : FW).run evs).closed then 1 else 0 :=
-  fw_chan_closes {} evs rfl
+    let w := ({} : FW).run evs
+    (w.chanCloses = if w.closed then 1 else 0) ∧ (w.closed = true → w.blocked = []) ∧
+    ¬ (w.closed = true ∧ w.closing = true) := by
+  intro w
+  have h := fwinv_run evs
+  exact ⟨h.closes, h.drained, h.excl⟩
+
+/-- A `Close()` that had to wait completes as soon as the blocked failures have been read. -/
+theorem fw_pending_close_completes_when_drained (evs : List FEv) (hc : (({} : FW).run evs).closing = true) :
+    let w := ({} : FW).run evs
+    ((w.run (List.replicate w.blocked.length .recv)).closed = true) ∧ w.blocked ≠ [] := by
+  intro w
+  have h := fwinv_run evs
+  exact ⟨((drain_completes _ w h rfl).2.2 hc).1, h.closingBlocked hc⟩
+
+/-- **Observation (outside the property's clauses; confirmed on the real code by `C17.fwblock`)**: with a
+failure that nobody has read, `Close()` does not return, and a later `WatchService` and a second `Close()`
+queue behind it on the mutex; one receive releases all of them (the Watch* then panics: watcher closed). -/
+theorem fw_close_blocks_on_unread_failure_witness :
+    let w := ({} : FW).run [.watch, .failure 0 1, .close, .watch, .close]
+    w.closing = true ∧ w.closed = false ∧ w.closeReturned = 0 ∧ w.waitingCalls = 2 ∧
+    (w.step .recv).closed = true ∧ (w.step .recv).closeReturned = 1 ∧ (w.step .recv).waitingCalls = 0 ∧
+    (w.step .recv).forwarded = [(0, 1)] := by
+  decide
 
 end PC17
